@@ -226,6 +226,13 @@ func (b *batch) judgeLegal(version string, raw []byte, p string, extra string) {
 	if carries {
 		b.obs["legal_frames_with_rpc_error"]++
 	}
+	if i := strings.Index(extra, "xml:"); i >= 0 {
+		v := extra[i:]
+		if j := strings.IndexByte(v, ' '); j > 0 {
+			v = v[:j]
+		}
+		errObs(b.obs, b.tags, []byte(p), v, "")
+	}
 	if o.Failed != nil && !carries {
 		k := "c02/failed-set-on-legal-frame:"
 		if o.Result == want {
@@ -270,24 +277,60 @@ func errFormClass(p []byte) string {
 	if anyMarkerIn(p) {
 		return ""
 	}
-	set := map[string]bool{}
+	other := false
 	for _, m := range errOpenTagRe.FindAllSubmatch(p, -1) {
-		if len(m[1]) > 0 {
-			set["prefix="+string(m[1])] = true
+		if len(m[1]) > 0 && string(m[1]) != "nc" {
+			other = true
 		}
 	}
+	var l []string
+	if other {
+		l = append(l, "prefix-other-than-nc")
+	}
 	if errCloseWSRe.Match(p) {
-		set["close=ws"] = true
+		l = append(l, "closing-tag-whitespace")
 	}
 	if errSelfCloseRe.Match(p) {
-		set["self-closing"] = true
+		l = append(l, "self-closing")
 	}
-	var l []string
-	for k := range set {
-		l = append(l, k)
+	return ":no-literal-marker:" + strings.Join(l, "+")
+}
+
+// errObs records what kind of error reply a payload is (evidence counters for the rpc-error dimension).
+func errObs(obs map[string]int64, tags map[string]bool, p []byte, variant, pre string) {
+	n, wf := xmlErrorElements(p)
+	if !wf {
+		return
 	}
-	sort.Strings(l)
-	return ":no-literal-marker:" + strings.Join(l, ",")
+	obs[pre+"wellformed_xml_payloads"]++
+	if n == 0 {
+		return
+	}
+	obs[pre+"wellformed_xml_payloads_with_rpc_error"]++
+	obs[pre+"rpc_error_elements"] += int64(n)
+	for _, m := range errOpenTagRe.FindAll(p, -1) {
+		if !bytes.Contains(m, []byte("rpc-error>")) || bytes.Contains(m, []byte(":")) {
+			obs[pre+"rpc_error_open_tags_with_attributes_prefix_or_whitespace"]++
+		}
+	}
+	if !bytes.Contains(p, []byte("<rpc-error>")) && !bytes.Contains(p, []byte("<nc:rpc-error>")) {
+		obs[pre+"error_replies_without_any_bare_opening_tag"]++
+	}
+	if strings.HasPrefix(variant, "xml:") {
+		for _, f := range strings.Split(variant[4:], "+") {
+			tags["errform="+f] = true
+		}
+	}
+}
+
+func variantTag(v string) string {
+	if strings.HasPrefix(v, "xml:") {
+		if v == "xml:none" {
+			return v
+		}
+		return "xml:rpc-error-forms"
+	}
+	return v
 }
 
 // decoyClass: a payload without rpc-error element that holds a literal marker (CDATA / comment).
@@ -422,7 +465,7 @@ func runLegal(seed int64, n int, big bool) mon.Result {
 		}
 		v10 := r.Intn(4) == 0
 		p, variant := GenPayload(r, PayloadCfg{ID: id, BodyLen: bodyLen(r, big), HashLines: true, V10: v10, Pretty: !big && r.Intn(5) == 0, Collide: r.Intn(4) == 0})
-		b.tags["variant="+variant] = true
+		b.tags["variant="+variantTag(variant)] = true
 		b.obs["legal_frames"]++
 		if v10 {
 			raw := ncwire.EncodeEOM([]byte(p))
